@@ -398,11 +398,8 @@ def check(ctx):
 
     # ---- R5 consumers started ---------------------------------------------
     con = repo.method("GeckoAsyncSpa", "_connect")
-    started = []
-    from ..facts import started_tasks
-    for a, _name, _key, _n in started_tasks(repo, con):
-        if isinstance(a, ast.Call) and call_name(a) == "consume" and isinstance(a.func.value, ast.Call):
-            started.append(ast.unparse(a.func.value.func))
+    from ..facts import connection_tasks
+    started = [t["handler"] for t in connection_tasks(repo) if t["kind"] == "consume" and t["handler"]]   # _connect interpreted on a model event loop
     ctx.floor("R5", "consumer tasks started in _connect", len(started), 5)
     # required by role: the discard consumer (class overriding consume) and every
     # handler class whose can_handle accepts traffic the spa sends unsolicited
